@@ -1419,3 +1419,105 @@ Proof.
         destruct (Qeq_dec (qib c) 0) as [Z1|Z1]; [tauto|]. apply N1.
         apply (Qmult_integral_l (qib c)); assumption.
 Qed.
+
+(* ================= termination for arbitrary (also non-finite) inputs ================= *)
+Definition not_pos (x : XQ) : Prop := ltb (zero : XQ) x = false.
+Definition not_neg (x : XQ) : Prop := ltb x (zero : XQ) = false.
+
+Lemma not_pos_add (a b : XQ) : not_pos a -> not_pos b -> not_pos (add a b).
+Proof.
+  unfold not_pos. destruct a, b; simpl; auto; try discriminate.
+  rewrite !negb_false_iff. intros A B. apply Qle_bool_iff in A, B. apply Qle_bool_iff. lra.
+Qed.
+Lemma not_neg_add (a b : XQ) : not_neg a -> not_neg b -> not_neg (add a b).
+Proof.
+  unfold not_neg. destruct a, b; simpl; auto; try discriminate.
+  rewrite !negb_false_iff. intros A B. apply Qle_bool_iff in A, B. apply Qle_bool_iff. lra.
+Qed.
+
+Lemma not_pos_zero : not_pos zero. Proof. reflexivity. Qed.
+Lemma not_neg_zero : not_neg zero. Proof. reflexivity. Qed.
+
+Lemma fold_pos_ex {A} (F : A -> XQ) l : forall acc, not_pos acc ->
+  ltb (zero : XQ) (fold_left (fun a x => add a (F x)) l acc) = true -> exists x, In x l /\ ltb (zero : XQ) (F x) = true.
+Proof.
+  induction l as [|y l IH]; cbn [fold_left In]; intros acc Ha Hp.
+  - unfold not_pos in Ha. congruence.
+  - destruct (ltb (zero : XQ) (F y)) eqn:E.
+    + exists y. auto.
+    + destruct (IH _ (not_pos_add _ _ Ha E) Hp) as [x [Hx Px]]. exists x. auto.
+Qed.
+Lemma fold_neg_ex {A} (F : A -> XQ) l : forall acc, not_neg acc ->
+  ltb (fold_left (fun a x => add a (F x)) l acc) (zero : XQ) = true -> exists x, In x l /\ ltb (F x) (zero : XQ) = true.
+Proof.
+  induction l as [|y l IH]; cbn [fold_left In]; intros acc Ha Hp.
+  - unfold not_neg in Ha. congruence.
+  - destruct (ltb (F y) (zero : XQ)) eqn:E.
+    + exists y. auto.
+    + destruct (IH _ (not_neg_add _ _ Ha E) Hp) as [x [Hx Px]]. exists x. auto.
+Qed.
+
+Lemma viol_sum_shape (h : Item -> Item) l : (forall c, fi_frozen (h c) = fi_frozen c) ->
+  viol_sum (map (on_unfrozen h) l) = fold_left (fun a c => add a (fi_violation (h c))) (filter unfrozen l) zero.
+Proof.
+  intro Hh. unfold viol_sum. generalize (zero : XQ). induction l as [|a l IH]; intro acc; [reflexivity|].
+  cbn [map filter].
+  assert (E0 : unfrozen (on_unfrozen h a) = unfrozen a).
+  { unfold on_unfrozen, unfrozen. destruct (fi_frozen a) eqn:E; [rewrite E|rewrite Hh, E]; reflexivity. }
+  rewrite E0. destruct (unfrozen a) eqn:E.
+  - cbn [fold_left]. replace (on_unfrozen h a) with (h a).
+    + apply IH.
+    + unfold on_unfrozen. unfold unfrozen in E. apply negb_true_iff in E. rewrite E. reflexivity.
+  - apply IH.
+Qed.
+
+Lemma distribute_shape k f (items : list Item) :
+  exists r : Item -> Item, (forall c, fi_frozen (r c) = fi_frozen c) /\ distribute k f items = map (on_unfrozen r) items.
+Proof.
+  assert (ID : exists r : Item -> Item, (forall c, fi_frozen (r c) = fi_frozen c) /\ items = map (on_unfrozen r) items).
+  { exists (fun c => c). split; [reflexivity|]. rewrite <- (map_id items) at 1. apply map_ext. intro c.
+    unfold on_unfrozen. destruct (fi_frozen c); reflexivity. }
+  unfold distribute.
+  repeat match goal with |- context [if ?b then _ else _] => destruct b end; try exact ID;
+    eexists; (split; [|reflexivity]); intro c; reflexivity.
+Qed.
+
+Lemma loop_body_decreases k (items : list Item) : forallb fi_frozen items = false ->
+  (cnt (loop_body k items) < cnt items)%nat.
+Proof.
+  intro NF. rewrite loop_body_unfold. cbv zeta.
+  destruct (distribute_shape k (free_space_of k items) items) as [r [Hr ->]].
+  rewrite (on_unfrozen_fuse fix_violation r items Hr).
+  set (h := fun c => fix_violation (r c)).
+  assert (Hh : forall c, fi_frozen (h c) = fi_frozen c) by (intro c; unfold h; simpl; apply Hr).
+  set (V := viol_sum (map (on_unfrozen h) items)).
+  rewrite (on_unfrozen_fuse (freeze_by_violation V) h items Hh).
+  assert (VS : V = fold_left (fun a c => add a (fi_violation (h c))) (filter unfrozen items) zero) by (apply viol_sum_shape; assumption).
+  apply cnt_map_lt.
+  - intros c _ E. unfold on_unfrozen. rewrite E. assumption.
+  - unfold on_unfrozen, freeze_by_violation, gtb.
+    destruct (ltb (zero : XQ) V) eqn:E1; [|destruct (ltb V (zero : XQ)) eqn:E2].
+    + rewrite VS in E1. destruct (fold_pos_ex _ _ zero not_pos_zero E1) as [c [Hc Pc]].
+      apply filter_In in Hc. destruct Hc as [Hc U]. unfold unfrozen in U. apply negb_true_iff in U.
+      exists c. split; [assumption|]. split; [assumption|]. rewrite U. fi_simpl. exact Pc.
+    + rewrite VS in E2. destruct (fold_neg_ex _ _ zero not_neg_zero E2) as [c [Hc Pc]].
+      apply filter_In in Hc. destruct Hc as [Hc U]. unfold unfrozen in U. apply negb_true_iff in U.
+      exists c. split; [assumption|]. split; [assumption|]. rewrite U. fi_simpl. exact Pc.
+    + destruct (forallb_frozen_false _ NF) as [c [Hc U]]. exists c. split; [assumption|]. split; [assumption|].
+      rewrite U. reflexivity.
+Qed.
+
+Lemma flex_loop_total k : forall fuel (items : list Item), (cnt items < fuel)%nat -> exists res, flex_loop fuel k items = Some res.
+Proof.
+  induction fuel as [|f IH]; intros items Hc; [lia|]. simpl.
+  destruct (forallb fi_frozen items) eqn:E; [eexists; reflexivity|].
+  apply IH. pose proof (loop_body_decreases k items E). lia.
+Qed.
+
+Theorem loop_terminates (items : list Item) (gap : XQ) (M : option XQ) :
+  exists res, resolve_flexible_lengths items gap M = Some res.
+Proof.
+  unfold resolve_flexible_lengths.
+  match goal with |- context [if ?b then _ else _] => destruct b end; [eexists; reflexivity|].
+  apply flex_loop_total. match goal with |- (cnt ?l < S (length ?l))%nat => pose proof (cnt_le_length l); lia end.
+Qed.
